@@ -27,7 +27,7 @@ MIN = {"parse_name_post": (100000, 1000000), "reference_partition": (100000, 100
        "corpus_validation": (1, 1), "resplit_after_mutation": (2000, 20000)}
 FORBID = ["oracle_disagreement"]
 
-ALPHA = ["Aa", "bb", "Cc", "dd", "{Ee}", "{ff}", "{\\'E}x", "{\\'e}x", "1", "\\'E", "\\\\", " ", "~", ",", "{", "}"]
+ALPHA = ["Aa", "bb", "Cc", "dd", "{Ee}", "{ff}", "{\\'E}x", "{\\'e}x", "1", "\\'E", "\\\\", " ", "~", ",", "{", "}", "e", "Y"]
 
 
 def _L(tier):
@@ -38,7 +38,7 @@ def exhaustive(tier):
     return f"all token sequences of length <= {_L(tier)} over {ALPHA!r}"
 
 
-WORDS = ["Aa", "bb", "Cc", "dd", "von", "de", "la", "Jr.", "III", "{Ee}", "{ff}", "{\\'E}x", "{\\'e}x", "1", "\\'E", "d'Aa", "{\\oe}x", "{von}", "Éa", "ça", "Strauß", "İz", "ﬁn", "ǅa", "ßa",
+WORDS = ["Aa", "bb", "Cc", "dd", "von", "de", "la", "Jr.", "III", "{Ee}", "{ff}", "{\\'E}x", "{\\'e}x", "1", "\\'E", "d'Aa", "{\\oe}x", "{von}", "Éa", "ça", "Strauß", "İz", "ﬁn", "ǅa", "ßa", "e", "y", "a", "ß", "O", "é",
          "A.", "b-C", "{A B}", "{a, b}", "\\\\", "x\\", "\\"]
 
 
